@@ -124,6 +124,12 @@ def run(ctx):
         r2.check(not (vals & completed), ctx.construct(ft, c),
                  'timeout fails a task that already completed (%s)'
                  % sorted(vals & completed), ctx.loc(ft, c))
+        missing = set(sd.ALL) - completed - vals
+        r2.check(not missing, ctx.construct(ft, extra='every incomplete '
+                                            'state'),
+                 'the timeout is silently dropped for tasks in %s (delayed, '
+                 'paused or waiting tasks would outlive their deadline: the '
+                 'job fires once)' % sorted(missing), ctx.loc(ft, c))
         r2.check(len(c.args) >= 3 and norm(c.args[1]) == 'states.ERROR' and
                  dotted(c.args[2]) == 'msg', ctx.construct(ft, extra='ERROR '
                                                            'with message'),
